@@ -19,6 +19,7 @@ fn main() {
     "C02" => runner::dispatch(props::c02::spec(), &args),
     "C03" => runner::dispatch(props::c03::spec(), &args),
     "C04" => runner::dispatch(props::c04::spec(), &args),
+    "C05" => runner::dispatch(props::c05::spec(), &args),
     "C06" => runner::dispatch(props::c06::spec(), &args),
     "C07" => runner::dispatch(props::c07::spec(), &args),
     "C14" => runner::dispatch(props::c14::spec(), &args),
